@@ -10,12 +10,13 @@ from typing import Any
 from harness.cmdmgr import cfg_line
 
 NCMD = 4
-SMALL_SPEC = {"dur": [1, 3, 6, 0], "fail": [-1, -1, -1, 1], "overlaps": [[1, 2]]}
+SMALL_SPEC = {"dur": [1, 3, 6, 0], "fail": [-1, 101, -1, 1], "overlaps": [[1, 2]]}
 
 
 def gen_spec(rng: random.Random) -> dict[str, Any]:
     durs = [rng.choice([0, 1, 1, 2, 3, 4, 6]) for _ in range(NCMD)]
-    fails = [rng.choice([-1, -1, -1, -1, 0, 1, 2]) for _ in range(NCMD)]
+    # (100 + i: set_complete() and then an exception in iteration i)
+    fails = [rng.choice([-1, -1, -1, -1, -1, 0, 1, 2, 100, 101, 102]) for _ in range(NCMD)]
     ovl = []
     for _ in range(rng.choice([0, 1, 1, 2])):
         ovl.append(rng.sample(range(NCMD), rng.choice([2, 2, 3])))
@@ -169,9 +170,10 @@ def oracle_c11(lines: list[str], answers: list[str]) -> list[tuple[str, str]]:
         for e in o["ev"]:
             if e[0] == "x":
                 ser, it, k = int(re.match(r"x(\d+)", e).group(1)), int(e.split(".")[1].split("k")[0]), int(e.split("k")[1])
-                if spec["fail"][k] == it and f"f{ser}" not in o["ev"]:
+                fail_it = spec["fail"][k] % 100 if spec["fail"][k] >= 0 else -1
+                if fail_it == it and f"f{ser}" not in o["ev"]:
                     out.append(("failed-instance-not-finalized", f"op {n}: exec of #{ser} (K{k}) raised, no finalize"))
-                if spec["fail"][k] != it and spec["dur"][k] > 0 and it + 1 >= spec["dur"][k] and f"f{ser}" not in o["ev"]:
+                if fail_it != it and spec["dur"][k] > 0 and it + 1 >= spec["dur"][k] and f"f{ser}" not in o["ev"]:
                     out.append(("completed-instance-not-finalized", f"op {n}: #{ser} (K{k}) completed, no finalize"))
         for k, rec in o["inst"].items():
             if rec["serial"] is not None and ("c" in rec["state"].lstrip("0123456789") or "d" in rec["state"]):
